@@ -4,7 +4,7 @@
 # under /tmp, the change applied, the check of its property run against that tree (VERIF_REPO, no evidence written), and the
 # worktree removed again. /repo itself is never touched. Prints one line per change; exit 1 if a change is no longer caught.
 cd /verif
-IDS="$@"; [ -z "$IDS" ] && IDS=$(ls seeded)
+IDS="$@"; [ -z "$IDS" ] && IDS=$(ls seeded | grep -v '^benign-')   # (the behaviour-preserving changes are handled by tools/benign_eval.sh)
 BAD=0
 for ID in $IDS; do
   P=${ID%%-*}
